@@ -1080,6 +1080,47 @@ def size_exact(rep, prog, rule):
     rep.floor(rule, "typed container constructors", n, 3)
 
 
+PANIC_RE = re.compile(r"(^|::)(panicking::(panic|panic_fmt|panic_explicit|assert_failed\w*|panic_display|"
+                      r"unreachable_display|panic_nounwind\w*)|rt::(begin_panic|panic_fmt)|"
+                      r"option::(unwrap_failed|expect_failed)|result::unwrap_failed)$")
+
+
+def validators_no_panic(rep, prog, rule, files=("src/crop_box.rs", "src/images/")):
+    """a function that answers with a validation error does not also panic"""
+    rep.rule(rule, "a function of the geometry / container layer whose result type carries a validation "
+             "error (CropBoxError, ImageBufferError, InvalidPixelsSize, ...) reports every input it does "
+             "not accept through that error: it contains no explicit panic (assert!, panic!, unreachable!, "
+             "a compiler-inserted unwrap_failed) on a path that depends on its arguments. `assert!(right."
+             "is_finite())` after the NaN checks panics for a crop box with an infinite size, which the "
+             "following comparison would have refused with SizeIsOutOfImageBoundaries. (Arithmetic "
+             "overflow checks are C04.arith's business; debug_assert! is compiled in the checked "
+             "configuration and counts.)")
+    n = 0
+    for f in sorted(prog.fns.values(), key=lambda x: x.id):
+        if f.kind == "closure":
+            continue
+        if not any(f.file == prog.file_now(s_) or (s_.endswith("/") and (f.file or "").startswith(s_)) for s_ in files):
+            continue
+        out = f.d.get("output") or ""
+        if not re.search(r"Result<.*(CropBoxError|ImageBufferError|InvalidPixelsSize|ImageError|"
+                         r"DifferentDimensionsError|MappingError)", out):
+            continue
+        n += 1
+        rep.touch(f)
+        ps = [c for c in f.calls() if PANIC_RE.search(c.name or "") and not f.is_cleanup(c.bb)]
+        key = "%s|no-panic" % f.name
+        if not ps:
+            rep.ok(rule, key, f.loc, "no explicit panic")
+            continue
+        for c in ps:
+            rep.bad(rule, "%s|%s" % (f.name, "assert" if (c.macro and "assert" in str(c.macro)) else "panic"),
+                    c.at, "%s returns %s but also panics (%s%s): an input that reaches this call is "
+                    "neither accepted nor refused with the documented error" % (
+                        f.name, out[:60], (c.name or "").rsplit("::", 1)[-1],
+                        " from %s" % c.macro if c.macro else ""))
+    rep.floor(rule, "validating functions", n, 8)
+
+
 def crop_route(rep, prog, rule):
     """the user's crop box reaches the validator / the view untouched"""
     rep.rule(rule, "a CropBox that a function RECEIVED (a parameter, the payload of "
